@@ -70,7 +70,7 @@ def discharge(obligations, budget_s=20.0, portfolio=True, seeds=(0,)):
     st, dt, out, model = run_z3(ob, budget_s, seeds[0])
     results['z3-5.1'] = (st, dt, out)
     ob.model = model
-    if st != 'unsat' and portfolio:
+    if st == 'unknown' and portfolio:
       try:
         smt = to_smt2(ob)
         ob.smt2 = smt
